@@ -72,6 +72,58 @@ func ruleR23() *Rule {
 				}
 			}
 			idxCell, mapCell, exclCell := cellFor(ri), cellFor(rm), cellFor(rx)
+			if res := loc.Call.Signature().Results(); res != nil && res.Len() > 0 && isIndexHandlePtr(res.At(0).Type()) {
+				// the results folded into one handle: the variables are assigned from its fields
+				h := extractOf(loc, 0)
+				cellFromField := func(pred func(types.Type) bool) *ssa.Alloc {
+					var out *ssa.Alloc
+					eachInstr(ivi, func(_ *ssa.BasicBlock, in ssa.Instruction) {
+						st, ok := in.(*ssa.Store)
+						if !ok || out != nil {
+							return
+						}
+						u, ok := st.Val.(*ssa.UnOp)
+						if !ok || u.Op != token.MUL {
+							return
+						}
+						fa, ok := u.X.(*ssa.FieldAddr)
+						if !ok || h == nil || !pred(u.Type()) {
+							return
+						}
+						isH := sameValue(fa.X, h) || sameValue(resolveLoad(fa.X), h)
+						if al, isAl := fa.X.(*ssa.Alloc); isAl && !isH {
+							// the handle by value, kept in a local variable
+							for _, s2 := range cellStores(al) {
+								if s2.Val == h {
+									isH = true
+								}
+							}
+						}
+						if !isH {
+							return
+						}
+						out = cellOf(st.Addr)
+					})
+					return out
+				}
+				idxCell = cellFromField(isFaissIndexPtr)
+				mapCell = cellFromField(func(t types.Type) bool {
+					m, ok := t.Underlying().(*types.Map)
+					if !ok {
+						return false
+					}
+					kt, ok := m.Key().Underlying().(*types.Basic)
+					return ok && kt.Kind() == types.Int64
+				})
+				exclCell = cellFromField(func(t types.Type) bool {
+					sl, ok := t.Underlying().(*types.Slice)
+					if !ok {
+						return false
+					}
+					et, ok := sl.Elem().Underlying().(*types.Basic)
+					return ok && et.Kind() == types.Int64
+				})
+			}
 			if idxCell == nil || mapCell == nil || exclCell == nil {
 				c.undecided("anchor/result-cells", c.pos(loc), "the variables holding the cached index, the id->doc map and the exclusion list are found", "results of loadOrCreate are not assigned to captured variables")
 				return
@@ -535,6 +587,9 @@ func r23ExclusionLookedAt(c *RuleCtx) {
 					listRes = i
 				}
 			}
+		}
+		if idxRes < 0 && res.Len() > 0 && isIndexHandlePtr(res.At(0).Type()) {
+			idxRes, listRes = 0, 0 // index and exclusion list handed out together in a handle
 		}
 		if idxRes < 0 || listRes < 0 {
 			continue
